@@ -20,6 +20,8 @@ var importRewrites = map[string][3]string{
 	"time":   {"time", rtPath + "vtime", "time"},
 	"os":     {"os", rtPath + "vos", "os"},
 	"sql":    {"database/sql", rtPath + "vsql", "sql"},
+	// memoised Argon2id (same function, cached by password+salt+parameters)
+	"argon2": {"golang.org/x/crypto/argon2", rtPath + "vargon2", "argon2"},
 }
 
 // weave rewrites one source file. Rewrites: sync, atomic, time, os, sql
